@@ -30,6 +30,8 @@ mod graphref;
 mod c16;
 mod c17;
 mod c18;
+mod c20;
+mod elfgen;
 mod ilgen;
 mod locgraph;
 mod refinterp;
@@ -49,6 +51,7 @@ fn make_check(prop: &str, tier: Tier) -> Option<Box<dyn Check>> {
         "C10" => Box::new(c10::C10::new(tier)),
         "C11" => Box::new(c11::C11::new(tier)),
         "C17" => Box::new(c17::C17::new(tier)),
+        "C20" => Box::new(c20::C20::new(tier)),
         "C18" => Box::new(c18::C18::new(tier)),
         "C12" => Box::new(c12::C12::new(tier)),
         "C13" => Box::new(c13::C13::new(tier)),
@@ -123,7 +126,7 @@ fn main() {
             let mut ran = 0u64;
             while ran < max_cases {
                 // directed cases always run to completion; random ones until the budget is used
-                if case >= directed && start.elapsed() >= budget {
+                if case >= directed && (start.elapsed() >= budget || check.finite()) {
                     break;
                 }
                 ctx.case = case;
